@@ -177,8 +177,8 @@ claimed["C16"] = (
 claimed["C14"] = (
     "Bounded symbolic execution of the two heartbeat loops under a VIRTUAL clock (discrete-event semantics in the executor: time advances through time.Sleep, through the peer model's symbolic answer delays, and by "
     "jumping to the earliest pending time.After deadline when nothing else can run; comparisons of symbolic instants are decided by the solver). Server: the real serverSocket.pingPong started by newServerSocket with "
-    "pingInterval and pingTimeout SYMBOLIC in [100ms,300ms] (the loop is scale-free; the property's 1s..3s is the same kernel), a peer that answers the first 0..2 (quick) / 0..3 (thorough) pings after symbolic delays "
-    "strictly below pingTimeout (the answer may overtake the pinging goroutine at any synchronisation point: real thread scheduling with one preemption) and is then black-holed: never closed while pongs arrive in time, exactly one more ping per answered ping, closed exactly once with ReasonPingTimeout, no later than pingInterval + "
+    "pingInterval and pingTimeout SYMBOLIC in [100ms,300ms] (the loop is scale-free; the property's 1s..3s is the same kernel), a peer that answers the first 0..2 pings (with 3 the solver left the feasibility of ~30 timing paths undecided: not registered) after symbolic delays "
+    "strictly below pingTimeout (the answer may overtake the pinging goroutine at any synchronisation point: real thread scheduling with one preemption quick / two thorough) and is then black-holed: never closed while pongs arrive in time, exactly one more ping per answered ping, closed exactly once with ReasonPingTimeout, no later than pingInterval + "
     "pingTimeout after the last sign of life and not before pingTimeout without a pong, transport closed. Upgrade probe: a probe PING on a candidate transport at a symbolic instant, then silence: still detected within pingInterval + pingTimeout of the start (a probe is no heartbeat answer). Client: the real handleTimeout re-armed by pings through the real handlePacket: never closes while ping gaps "
     "stay below pingInterval+pingTimeout, closes with the ping-timeout reason exactly pingInterval+pingTimeout after the last ping, every ping answered with a pong.",
     "Outside the claim: wall-clock behaviour and OS scheduling latency (virtual time has none; native replay allows 60ms slack and only confirms violations larger than that), transports, proxies, one-directional loss, "
